@@ -61,7 +61,10 @@ def mutator(rng, c, focus, h):
             h.append('bop %s op=%s rhs=o inplace=1' % (n, rng.choice(['and', 'or', 'xor'])))
     elif c.kind == 'rec':
         # write (or clear) through a freshly taken view of the primary field
-        f = c.primary if rng.random() < 0.7 else rng.randrange(len(c.fields))
+        f = c.single_field(rng, primary_bias=0.7)
+        if f is None:
+            h.append(gen.upd_line(rng, c, focus=focus))
+            return
         h.append('single %s r=v field=%d' % (n, f))
         pix = gen.rand_pixels(rng, c, n=rng.choice([1, 2, 4]), focus=focus)
         fc = gen.MapCfg('v', 'plain', c.covord, c.spord, dtype=c.fields[f])
@@ -87,6 +90,8 @@ def histories(rng, tier):
         h = [c.line()]
         observers(rng, c, h)
         for _ in range(rng.randint(3, 10)):
+            if rng.random() < 0.04:
+                h += gen.roundtrip_lines(rng, c.name)
             if rng.random() < 0.8:
                 h.append('nvalid %s' % c.name)          # warm the cache
             mutator(rng, c, focus, h)
